@@ -131,6 +131,22 @@ fn run(ctx: &Ctx) -> Part {
         })
         .reduce(Acc::new, Acc::merge);
     acc = acc.merge(a);
+    // fills of more than 2^31 pixels on 65535-wide framebuffers (recording interface, symbolic memory)
+    for o in [0u8, 3, 6] {
+        for c666 in [false, true] {
+            let cfg = Cfg::tiny(65535, 65535, c666, Transport::RecSerial, (65535, 65535, 0, 0), o);
+            for op in [
+                Op::Clear { c: 0x0000 },
+                Op::Clear { c: 0x1234 },
+                Op::FillSolid { r: Rect { x: 0, y: 0, w: 65535, h: 40000 }, c: 0xFFFF },
+                Op::FillSolid { r: Rect { x: 5, y: 7, w: 40000, h: 40000 }, c: 0x00FF },
+                Op::FillSolid { r: Rect { x: -5, y: -7, w: 70000, h: 70000 }, c: 0x0F0F },
+            ] {
+                check_fill(ctx, &mut acc, &cfg, &op);
+                acc.count("giant_fills", 1);
+            }
+        }
+    }
     // (2) draw_iter streams: fine scale (all streams of length <= 4 on 3x3), C01 alphabet, coarse words
     let fine = Cfg::tiny(3, 3, false, Transport::RecSerial, (3, 3, 0, 0), 0);
     let firsts: Vec<u32> = (0..9).collect();
